@@ -10,8 +10,10 @@
                          buffers requested from the SIZ fields (reached when at least one tile parsed)
    The parser state is the offset into the data (Go int); it can run past len(data) after
    parseCOD/parseCOC (`p.offset += expected - consumed`), every later read then fails with EOF.
-   g = false: code as it stands. g = true: proposed checks — parseQCD rejects length < 3,
-   parseCOM rejects length < 4 (today: make([]byte, negative) panics). *)
+   The model is the fixed code: b1d8a5c (F38: parseQCD / parseCOM reject a negative payload length,
+   before: make([]byte, -1) panicked), 09d3ca7 (F39/F40: parseSIZ validates the geometry, before:
+   XTsiz = 0 divided by zero and 2^32-1 extents overflowed make), aa24b1a (F41: code-block
+   exponents and level count validated). *)
 From V Require Import Common.Base Parsers.PrsOutcome.
 
 Definition k_rd8 (d : list Z) (o : Z) : M (Z * Z) :=
@@ -39,7 +41,9 @@ Record ksiz := mkSiz { s_x : Z; s_y : Z; s_xo : Z; s_yo : Z; s_xt : Z; s_yt : Z;
 Fixpoint k_siz_comps (d : list Z) (k : nat) (o : Z) : M Z :=
   match k with
   | O => ret o
-  | S k' => a <- k_rd8 d o ;; b <- k_rd8 d (snd a) ;; c <- k_rd8 d (snd b) ;; k_siz_comps d k' (snd c)
+  | S k' =>
+    a <- k_rd8 d o ;; b <- k_rd8 d (snd a) ;; c <- k_rd8 d (snd b) ;;
+    if (fst b =? 0) || (fst c =? 0) then err else k_siz_comps d k' (snd c)
   end.
 
 Definition k_parse_siz (d : list Z) (o : Z) : M (ksiz * Z) :=
@@ -50,6 +54,11 @@ Definition k_parse_siz (d : list Z) (o : Z) : M (ksiz * Z) :=
   xt <- k_rd32 d (snd yo) ;; yt <- k_rd32 d (snd xt) ;;
   xto <- k_rd32 d (snd yt) ;; yto <- k_rd32 d (snd xto) ;;
   cs <- k_rd16 d (snd yto) ;;
+  if (fst x =? 0) || (fst y =? 0) || (fst x <=? fst xo) || (fst y <=? fst yo) then err else
+  if (fst xt =? 0) || (fst yt =? 0) then err else
+  if (fst xo <? fst xto) || (fst yo <? fst yto) || (fst xto + fst xt <=? fst xo) || (fst yto + fst yt <=? fst yo) then err else
+  if (fst cs =? 0) || (16384 <? fst cs) then err else
+  if 2 ^ 31 <? (fst x - fst xo) * (fst y - fst yo) then err else
   _ <- alloc (fst cs) 3 ;;
   o2 <- k_siz_comps d (Z.to_nat (fst cs)) (snd cs) ;;
   if negb (fst len =? 38 + 3 * fst cs) then err
@@ -65,6 +74,8 @@ Fixpoint k_rd_bytes (d : list Z) (k : nat) (o : Z) : M Z :=
 (* parseCodingStyleParams: 5 bytes, then numLevels+1 precinct bytes when scod&1 *)
 Definition k_coding_style (d : list Z) (scod o : Z) : M Z :=
   nl <- k_rd8 d o ;; a <- k_rd8 d (snd nl) ;; b <- k_rd8 d (snd a) ;; c <- k_rd8 d (snd b) ;; t <- k_rd8 d (snd c) ;;
+  if (8 <? fst a) || (8 <? fst b) || (8 <? fst a + fst b) then err else
+  if 32 <? fst nl then err else
   if Z.odd scod then
     _ <- alloc (fst nl + 1) 2 ;;
     k_rd_bytes d (Z.to_nat (fst nl + 1)) (snd t)
@@ -92,10 +103,10 @@ Definition k_parse_coc (csiz : Z) (d : list Z) (o : Z) : M (Z * list Z * Z) :=
   o3 <- k_len_fix (fst len) start o2 ;;
   ret (fst cp, k_slice d start (o2 - start), o3).
 
-Definition k_parse_qcd (g : bool) (d : list Z) (o : Z) : M Z :=
+Definition k_parse_qcd (d : list Z) (o : Z) : M Z :=
   len <- k_rd16 d o ;;
   sq <- k_rd8 d (snd len) ;;
-  if g && (fst len <? 3) then err else   (* proposed check *)
+  if fst len <? 3 then err else
   k_read_buf d (snd sq) (fst len - 3).
 
 Definition k_parse_qcc (csiz : Z) (d : list Z) (o : Z) : M (Z * list Z * Z) :=
@@ -132,10 +143,10 @@ Definition k_parse_rgn (csiz : Z) (d : list Z) (o : Z) : M Z :=
   let remain := fst len - minlen in
   if 0 <? remain then k_read_buf d (snd c) remain else ret (snd c).
 
-Definition k_parse_com (g : bool) (d : list Z) (o : Z) : M Z :=
+Definition k_parse_com (d : list Z) (o : Z) : M Z :=
   len <- k_rd16 d o ;;
   rc <- k_rd16 d (snd len) ;;
-  if g && (fst len <? 4) then err else   (* proposed check *)
+  if fst len <? 4 then err else
   k_read_buf d (snd rc) (fst len - 4).
 
 Definition k_parse_mct (d : list Z) (o : Z) : M Z :=
@@ -212,7 +223,7 @@ Fixpoint upd (l : list (Z * list Z)) (c : Z) (v : list Z) : list (Z * list Z) :=
 Definition csiz_of (st : kst) : Z := match k_siz st with Some s => s_c s | None => 0 end.
 
 (* one marker segment of the main header; m = second marker byte (first is 0xFF, checked by the caller) *)
-Definition k_main_segment (g : bool) (st : kst) (m : Z) (d : list Z) (o : Z) : M (kst * Z) :=
+Definition k_main_segment (st : kst) (m : Z) (d : list Z) (o : Z) : M (kst * Z) :=
   let seen := match k_siz st with Some _ => true | None => false end in
   if m =? 81 then (* SIZ *)
     if seen then err else
@@ -231,7 +242,7 @@ Definition k_main_segment (g : bool) (st : kst) (m : Z) (d : list Z) (o : Z) : M
     end
   else if m =? 92 then (* QCD *)
     if negb seen then err else if k_qcd st then err else
-    o2 <- k_parse_qcd g d o ;; ret (mkK (k_siz st) (k_cod st) true (k_coc st) (k_qcc st), o2)
+    o2 <- k_parse_qcd d o ;; ret (mkK (k_siz st) (k_cod st) true (k_coc st) (k_qcc st), o2)
   else if m =? 93 then (* QCC *)
     if negb seen then err else if negb (k_qcd st) then err else
     x <- k_parse_qcc (csiz_of st) d o ;;
@@ -246,7 +257,7 @@ Definition k_main_segment (g : bool) (st : kst) (m : Z) (d : list Z) (o : Z) : M
   else if m =? 94 then (* RGN *)
     if negb seen then err else o2 <- k_parse_rgn (csiz_of st) d o ;; ret (st, o2)
   else if m =? 100 then (* COM *)
-    if negb seen then err else o2 <- k_parse_com g d o ;; ret (st, o2)
+    if negb seen then err else o2 <- k_parse_com d o ;; ret (st, o2)
   else if m =? 116 then (* MCT *)
     if negb seen then err else o2 <- k_parse_mct d o ;; ret (st, o2)
   else if m =? 117 then (* MCC *)
@@ -257,7 +268,7 @@ Definition k_main_segment (g : bool) (st : kst) (m : Z) (d : list Z) (o : Z) : M
     if negb seen then err else o2 <- k_skip_segment d o ;; ret (st, o2).
 
 (* consumeMainHeader: peekMarker; SOT (0xFF90) or EOC (0xFFD9) ends the main header *)
-Fixpoint k_main_loop (g : bool) (fuel : nat) (st : kst) (d : list Z) (o : Z) : M (kst * Z) :=
+Fixpoint k_main_loop (fuel : nat) (st : kst) (d : list Z) (o : Z) : M (kst * Z) :=
   match fuel with
   | O => oof
   | S k =>
@@ -267,14 +278,14 @@ Fixpoint k_main_loop (g : bool) (fuel : nat) (st : kst) (d : list Z) (o : Z) : M
     else
       (* handlers are keyed by the full 16-bit marker: 0xFF51.. ; anything else is skipped *)
       let m := if marker / 256 =? 255 then marker mod 256 else 0 in
-      x <- k_main_segment g st m d (snd mk) ;;
-      k_main_loop g k (fst x) d (snd x)
+      x <- k_main_segment st m d (snd mk) ;;
+      k_main_loop k (fst x) d (snd x)
   end.
 
-Definition k_main_header (g : bool) (fuel : nat) (d : list Z) : M (ksiz * Z) :=
+Definition k_main_header (fuel : nat) (d : list Z) : M (ksiz * Z) :=
   soc <- k_rd16 d 0 ;;
   if negb (fst soc =? 65359) then err else
-  x <- k_main_loop g fuel kst0 d (snd soc) ;;
+  x <- k_main_loop fuel kst0 d (snd soc) ;;
   match k_siz (fst x) with
   | Some s => if negb (k_cod (fst x)) then err else if negb (k_qcd (fst x)) then err else ret (s, snd x)
   | None => err
@@ -326,7 +337,7 @@ Definition k_read_tile_data_len (d : list Z) (tile_start psot o : Z) : M Z :=
 
 Record ktile := mkT { t_coc : list (Z * list Z); t_qcc : list (Z * list Z) }.
 
-Definition k_tile_segment (g : bool) (csiz : Z) (ts : ktile) (m : Z) (d : list Z) (o : Z) : M (ktile * Z) :=
+Definition k_tile_segment (csiz : Z) (ts : ktile) (m : Z) (d : list Z) (o : Z) : M (ktile * Z) :=
   if m =? 82 then o2 <- k_parse_cod d o ;; ret (ts, o2)
   else if m =? 83 then
     x <- k_parse_coc csiz d o ;;
@@ -335,7 +346,7 @@ Definition k_tile_segment (g : bool) (csiz : Z) (ts : ktile) (m : Z) (d : list Z
     | Some old => if negb (zlist_eqb old body) then err else ret (mkT (upd (t_coc ts) c body) (t_qcc ts), o2)
     | None => ret (mkT (upd (t_coc ts) c body) (t_qcc ts), o2)
     end
-  else if m =? 92 then o2 <- k_parse_qcd g d o ;; ret (ts, o2)
+  else if m =? 92 then o2 <- k_parse_qcd d o ;; ret (ts, o2)
   else if m =? 93 then
     x <- k_parse_qcc csiz d o ;;
     let '(c, body, o2) := x in
@@ -351,7 +362,7 @@ Definition k_tile_segment (g : bool) (csiz : Z) (ts : ktile) (m : Z) (d : list Z
   else o2 <- k_skip_segment d o ;; ret (ts, o2).
 
 (* parseTileHeader: until SOD (0xFF93) *)
-Fixpoint k_tile_loop (g : bool) (fuel : nat) (csiz : Z) (ts : ktile) (d : list Z) (o : Z) : M Z :=
+Fixpoint k_tile_loop (fuel : nat) (csiz : Z) (ts : ktile) (d : list Z) (o : Z) : M Z :=
   match fuel with
   | O => oof
   | S k =>
@@ -359,16 +370,16 @@ Fixpoint k_tile_loop (g : bool) (fuel : nat) (csiz : Z) (ts : ktile) (d : list Z
     if fst mk =? 65427 then ret (snd mk)
     else
       let m := if fst mk / 256 =? 255 then fst mk mod 256 else 0 in
-      x <- k_tile_segment g csiz ts m d (snd mk) ;;
-      k_tile_loop g k csiz (fst x) d (snd x)
+      x <- k_tile_segment csiz ts m d (snd mk) ;;
+      k_tile_loop k csiz (fst x) d (snd x)
   end.
 
 (* parseTile: returns (Isot, offset after the tile-part data) *)
-Definition k_parse_tile (g : bool) (fuel : nat) (csiz : Z) (d : list Z) (o : Z) : M (Z * Z) :=
+Definition k_parse_tile (fuel : nat) (csiz : Z) (d : list Z) (o : Z) : M (Z * Z) :=
   mk <- k_rd16 d o ;;
   if negb (fst mk =? 65424) then err else
   sot <- k_parse_sot d (snd mk) ;;
   let '(isot, psot, o1) := sot in
-  o2 <- k_tile_loop g fuel csiz (mkT [] []) d o1 ;;
+  o2 <- k_tile_loop fuel csiz (mkT [] []) d o1 ;;
   o3 <- k_read_tile_data_len d o psot o2 ;;
   ret (isot, o3).
